@@ -276,14 +276,62 @@ func (w *World) Inject(nic int, pr string, src, dst []byte, sp, dp uint16, ulenD
 		np = header.IPv6ProtocolNumber
 	}
 	hl := len(pkt) - len(u)
-	// views: network header + UDP header in the first view (as link endpoints deliver), payload possibly split
-	cut := hl + 8 + split
-	if split <= 0 || cut >= len(pkt) {
-		w.L[nic].Inject(np, "", pkt)
-	} else {
-		w.L[nic].Inject(np, "", pkt[:cut], pkt[cut:])
+	switch {
+	case split >= 100 && pr == "4" && len(u) > 16 && ulenDelta == 0:
+		// as IPv4 fragments (8-byte aligned cuts), delivered in a random order: after reassembly the
+		// datagram reaches UDP as one view per fragment (more than 8 views when there are many)
+		nf := split - 100
+		var cuts []int
+		step := (len(u)/nf + 7) / 8 * 8
+		if step < 8 {
+			step = 8
+		}
+		for c := step; c < len(u); c += step {
+			cuts = append(cuts, c)
+		}
+		cuts = append(cuts, len(u))
+		start := 0
+		var frags [][]byte
+		for _, c := range cuts {
+			fo := uint16(start / 8)
+			if c < len(u) {
+				fo |= 0x2000
+			}
+			frags = append(frags, netsim.IPv4(src, dst, 17, 4242, fo, 64, u[start:c]))
+			start = c
+		}
+		w.r.R.Shuffle(len(frags), func(i, j int) { frags[i], frags[j] = frags[j], frags[i] })
+		for _, f := range frags {
+			w.L[nic].Inject(np, "", f)
+		}
+	case split >= 10:
+		// scattered into many views (headers in the first one, even-sized pieces)
+		nv := split - 8
+		views := [][]byte{pkt[:hl+8]}
+		rest := pkt[hl+8:]
+		piece := (len(rest)/nv + 1) / 2 * 2
+		if piece < 2 {
+			piece = 2
+		}
+		for len(rest) > piece {
+			views = append(views, rest[:piece])
+			rest = rest[piece:]
+		}
+		views = append(views, rest)
+		w.L[nic].Inject(np, "", views...)
+	default:
+		cut := hl + 8 + split
+		if split <= 0 || cut >= len(pkt) {
+			w.L[nic].Inject(np, "", pkt)
+		} else {
+			w.L[nic].Inject(np, "", pkt[:cut], pkt[cut:])
+		}
 	}
-	w.emit(fmt.Sprintf("inject %d %s %s %s %d %d %d %s", nic, pr, hx.Hex(src), hx.Hex(dst), sp, dp, ul, hx.Hex(payload)), "-")
+	fr := 0
+	if split >= 100 && pr == "4" && len(u) > 16 && ulenDelta == 0 {
+		fr = 1
+	}
+	w.emit(fmt.Sprintf("inject %d %s %s %s %d %d %d %s %d", nic, pr, hx.Hex(src), hx.Hex(dst), sp, dp, ul, hx.Hex(payload), fr), "-")
 }
 
 var _ = buffer.View{}
@@ -386,12 +434,12 @@ func Gen(r *hx.Run, focus string) {
 				}
 				if r.R.Intn(5) == 0 {
 					dsts := [][]byte{v6a, {0xfe, 0x80, 0, 0, 0, 0, 0, 0, 0, 0, 0, 0, 0, 0, 0, 7}}
-					w.Inject(1, "6", v6r, dsts[r.R.Intn(2)], []uint16{9000, 9001}[r.R.Intn(2)], dport, delta, payload, r.R.Intn(4))
+					w.Inject(1, "6", v6r, dsts[r.R.Intn(2)], []uint16{9000, 9001}[r.R.Intn(2)], dport, delta, payload, splitMode(r))
 				} else {
 					srcs := [][]byte{rem1, rem2, rem3}
 					dsts := [][]byte{a1, a2, a3, {10, 0, 2, 7}, {10, 0, 0, 77}}
 					nic := 1 + r.R.Intn(2)
-					w.Inject(nic, "4", srcs[r.R.Intn(3)], dsts[r.R.Intn(len(dsts))], []uint16{9000, 9001}[r.R.Intn(2)], dport, delta, payload, r.R.Intn(4))
+					w.Inject(nic, "4", srcs[r.R.Intn(3)], dsts[r.R.Intn(len(dsts))], []uint16{9000, 9001}[r.R.Intn(2)], dport, delta, payload, splitMode(r))
 				}
 				if r.R.Intn(3) == 0 {
 					w.Ready()
@@ -552,6 +600,12 @@ func GenEcho(r *hx.Run) {
 			r.R.Read(payload)
 			ident, seq := r.U16(), r.U16()
 			v6 := r.R.Intn(3) == 0
+			// boundary-valued request checksums (0x0000, 0x00ff, 0x0100, 0xffff …): found by choosing the
+			// first payload word; exercised because incremental-update shortcuts break exactly there
+			forceCk := -1
+			if plen >= 2 && r.R.Intn(3) == 0 {
+				forceCk = []int{0x0000, 0x0001, 0x00ff, 0x0100, 0x0101, 0xfeff, 0xff00, 0xfffe, 0xffff}[r.R.Intn(9)]
+			}
 			typ := uint8(8)
 			if v6 {
 				typ = 128
@@ -565,6 +619,15 @@ func GenEcho(r *hx.Run) {
 				dsts := [][]byte{v6a, v6a, v6a, {0xfe, 0x80, 0, 0, 0, 0, 0, 0, 0, 0, 0, 0, 0, 0, 0, 7}}
 				dst := dsts[r.R.Intn(len(dsts))]
 				msg := netsim.ICMPv6Echo(v6r, dst, typ, ident, seq, payload)
+				if forceCk >= 0 {
+					for wv := 0; wv < 65536; wv++ {
+						payload[0], payload[1] = byte(wv>>8), byte(wv)
+						msg = netsim.ICMPv6Echo(v6r, dst, typ, ident, seq, payload)
+						if int(msg[2])<<8|int(msg[3]) == forceCk {
+							break
+						}
+					}
+				}
 				if r.R.Intn(15) == 0 && len(msg) > 2 {
 					msg = msg[:r.R.Intn(8)] // truncated header
 					weird = true
@@ -583,6 +646,15 @@ func GenEcho(r *hx.Run) {
 					nic = 2
 				}
 				msg := netsim.ICMPv4Echo(typ, ident, seq, payload)
+				if forceCk >= 0 {
+					for wv := 0; wv < 65536; wv++ {
+						payload[0], payload[1] = byte(wv>>8), byte(wv)
+						msg = netsim.ICMPv4Echo(typ, ident, seq, payload)
+						if int(msg[2])<<8|int(msg[3]) == forceCk {
+							break
+						}
+					}
+				}
 				if r.R.Intn(15) == 0 {
 					msg = msg[:r.R.Intn(8)]
 					weird = true
@@ -636,5 +708,17 @@ func GenEcho(r *hx.Run) {
 		r.Extra[fmt.Sprintf("burst%d_replies", b)] = len(fs)
 		// recorded as an op whose expected output is "dup=0 bad=0 le=true"
 		w.emit("leftover", map[bool]string{true: "-", false: fmt.Sprintf("burst dup=%d bad=%d n=%d", dup, bad, len(fs))}[dup == 0 && bad == 0 && len(fs) <= nreq])
+	}
+}
+
+// splitMode: 0-3 = at most two views; 10+k = k+2 views; 100+n = n IPv4 fragments
+func splitMode(r *hx.Run) int {
+	switch r.R.Intn(8) {
+	case 0:
+		return 10 + r.R.Intn(14)
+	case 1:
+		return 100 + 2 + r.R.Intn(14)
+	default:
+		return r.R.Intn(4)
 	}
 }
